@@ -105,7 +105,8 @@ ValCont == {C("list", s) : s \in Seqs(Elem)} \cup {C("tuple", s) : s \in Seqs(El
              \cup {C("fset", s) : s \in {<<>>, <<Int1>>, <<Int1, StrA>>}}
              \cup {C("dict", s) : s \in {<<>>} \cup {<<p>> : p \in Pairs}
                                         \cup {<<C("pair", <<StrA, e>>), C("pair", <<StrBC, f>>)>> : e \in Elem, f \in Elem}}
-ValDeep == {C("list", <<x>>) : x \in {C("list", <<Int1>>), C("tuple", <<StrA, Int1>>), C("dict", <<C("pair", <<StrBC, Int1>>)>>)}}
+ValDeep == {C("tuple", <<C("list", <<Int1>>), C("list", <<>>)>>), C("tuple", <<C("dict", <<C("pair", <<StrA, Int1>>)>>)>>)}
+             \cup {C("list", <<x>>) : x \in {C("list", <<Int1>>), C("tuple", <<StrA, Int1>>), C("dict", <<C("pair", <<StrBC, Int1>>)>>)}}
              \cup {C("dict", <<C("pair", <<StrA, x>>)>>) : x \in {C("list", <<Int1, StrA>>), C("set", <<Int1>>)}}
 Vals == ValLeaf \cup ValCont \cup (IF Depth >= 2 THEN ValDeep ELSE {})
 
